@@ -119,9 +119,12 @@ func (p *proxy) call(ctx erpc.UnknownCallCtx) (interface{}, *erpc.Status) {
 	if replyBodyCodec := callcmd.InputBodyCodec(); replyBodyCodec != codec.NilCodecID {
 		ctx.SetBodyCodec(replyBodyCodec)
 	}
-	callcmd.InputMeta().VisitAll(func(key, value []byte) {
-		ctx.SetMeta(goutil.BytesToString(key), goutil.BytesToString(value))
-	})
+	// InputMeta is nil when no reply was received (the forward failed)
+	if replyMeta := callcmd.InputMeta(); replyMeta != nil {
+		replyMeta.VisitAll(func(key, value []byte) {
+			ctx.SetMeta(goutil.BytesToString(key), goutil.BytesToString(value))
+		})
+	}
 	stat := callcmd.Status()
 	return result, badGateway(stat)
 }
